@@ -2,7 +2,8 @@
    case : <kind> <mode s|c> <api q|e> <cons full|slowMS|dropN> <nodes> <policy> <script>
    impl : <items> <keys>
    script : pages joined by ';' ; page = <faults>/<resp>
-     faults : '-' | f(,f)*   f = C | T | D<ms> (delay, not a fault) | E<hexcode><s|n|d|i>
+     faults : '-' | f(,f)*   f = C | T | U (UNPREPARED + transparent re-prepare) |
+              D<ms> (delay, not a fault) | E<hexcode><s|n|d|i>
      resp   : R<rows>:<state> | V | X    rows = '-' | hex(.hex)*   state = N | '-' | hexbytes
    items : '-' | i(,i)*  i = r<hex> | e<hex> | $ ; or f<hex> = the constructor returned this error
    keys  : 'none' | k(,k)*  k = <page hex>:<state> *)
@@ -10,6 +11,7 @@ let parse_fault (s : string) : fault option =
   match s.[0] with
   | 'C' -> Some FConnFail
   | 'T' -> Some FTimeout
+  | 'U' -> Some FUnprep
   | 'D' -> None
   | 'E' ->
     let l = String.length s in
@@ -76,51 +78,76 @@ let model_string m script =
     | OStream l -> show_items l in
   o ^ " " ^ show_keys (List.map req_key rq)
 
+let show_expected = function None -> "none(server-silent)" | Some l -> show_items l
+
+(* Verdicts.  `ok` only through an acceptor proved sound for the property predicate
+   (C07_accept_full_sound / C07_accept_drop_sound: accept => prop_*_ok, outside class O1).
+   `viol` only when the property predicate (prop_full_ok / prop_drop_ok: expected stream from the
+   property text + every request carries the previous page's state) fails on the implementation's
+   own output.  Everything else is `diff`.  Class O1 (known_ignored): the code's silent end is a
+   property violation, reported with its known-finding class. *)
 let verdict case impl =
   match case, impl with
-  | [_kind; mode; _api; cons; nodes; _policy; script], [items; keys] ->
+  | [_kind; mode; _api; cons; nodes; _policy; script], obs ->
     let m = if mode = "c" then MConn else MSession in
-    let script = parse_script (int_of_string ("0x" ^ nodes)) script in
-    let (ctor_failed, oi) = parse_items items in
-    let ok = parse_keys keys in
-    if String.length cons >= 4 && String.sub cons 0 4 = "drop" then begin
-      let n = nat_of_int (int_of_string ("0x" ^ String.sub cons 4 (String.length cons - 4))) in
-      let model_ctor_failed = match snd (seq_run m script) with OFail _ -> true | _ -> false in
-      if accept_drop m script n oi ok && ctor_failed = model_ctor_failed then "ok"   (* C07_accept_drop_sound *)
-      else if not (prop_drop_ok m script oi ok) then
-        "viol spec=" ^ show_items (spec_stream (script_pages script)) ^ " " ^ show_keys (spec_requests m script)
-      else "diff model=" ^ model_string m script
-    end else begin
-      let ctor_fails sc = match snd (seq_run m sc) with OFail _ -> true | _ -> false in
-      let accepts sc = accept_full m sc oi ok && ctor_failed = ctor_fails sc in
-      (* Cases with a scripted client-side timeout (T) run under a wall-clock bound.  When the
-         machine stalls, the timeout may strike an EARLIER attempt than the scripted one.  That is
-         the same model run on the script with the T moved forward; try those scripts too (only
-         if the observation ends in the timeout error). *)
-      let ends_in_timeout =
-        List.exists (fun i -> i = IErr e_timeout) oi in
-      let has_t = List.exists (fun ps -> List.mem FTimeout ps.ps_faults) script in
-      let rec take k l = if k = 0 then [] else match l with [] -> [] | x :: r -> x :: take (k - 1) r in
-      let earlier_timeouts () =
-        let rec go pre = function
-          | [] -> false
-          | ps :: rest ->
-            let n = List.length ps.ps_faults in
-            let here = List.exists (fun i ->
-                accepts (List.rev_append pre ({ ps with ps_faults = take i ps.ps_faults @ [FTimeout] } :: rest)))
-                (List.init (n + 1) (fun i -> i)) in
-            here || (if List.mem FTimeout ps.ps_faults then false else go (ps :: pre) rest) in
-        go [] script in
-      if accepts script then "ok"   (* C07_accept_full_sound *)
-      else if has_t && ends_in_timeout && earlier_timeouts () then "ok early-timeout"
-      else if not (prop_full_ok m script oi ok) then
-        (match fail_point m script with
-         | Some (k, e) when not (good_script m script) ->
-           "viol spec=" ^ show_items (spec_error_stream (script_pages script) k e)
-         | _ -> "viol spec=" ^ show_items (spec_stream (script_pages script)) ^ " "
-                ^ show_keys (spec_requests m script))
-      else "diff model=" ^ model_string m script
-    end
+    let nn = int_of_string ("0x" ^ nodes) in
+    let script = parse_script nn script in
+    let n = nat_of_int nn in
+    if not (plans_ok (List.init nn n_of_int) script) then "error bad-plans" else
+    let exp_strict = expected true m n true script in
+    let known = known_ignored m n script in
+    (match obs with
+     | "error" :: why ->
+       (* the case did not run (environment: group failed, statement could not be prepared, ...):
+          counted by checks/c07.py, which fails the check above a small cap *)
+       "ok not-run " ^ String.concat " " why
+     | "hang" :: _ ->
+       (* "and then terminates": a read that never finishes violates the property whenever the
+          script lets the server answer every request *)
+       if exp_strict <> None then "viol hang spec=" ^ show_expected exp_strict else "diff hang model=stuck"
+     | [items; keys] ->
+       let (ctor_failed, oi) = parse_items items in
+       let ok = parse_keys keys in
+       let ctor_fails sc = match snd (seq_run m sc) with OFail _ -> true | _ -> false in
+       let is_drop = String.length cons >= 4 && String.sub cons 0 4 = "drop" in
+       (* a constructor error leaves nothing to drop: such observations are full reads *)
+       let as_drop = is_drop && not ctor_failed && not (ctor_fails script) in
+       let cnt = if is_drop then nat_of_int (int_of_string ("0x" ^ String.sub cons 4 (String.length cons - 4))) else O in
+       let prop = if as_drop then prop_drop_ok m n script cnt oi ok else prop_full_ok m n script oi ok in
+       let accepts sc =
+         if as_drop then accept_drop m sc cnt oi ok
+         else accept_full m sc oi ok && ctor_failed = ctor_fails sc in
+       (* Cases with a scripted client-side timeout (T) run under a wall-clock bound.  When the
+          machine stalls, the timeout may strike an EARLIER attempt than the scripted one.  That is
+          the same model run on the script with the T moved forward; try those scripts too (only
+          for full reads whose observation contains the timeout error). *)
+       let ends_in_timeout = List.exists (fun i -> i = IErr e_timeout) oi in
+       let has_t = List.exists (fun ps -> List.mem FTimeout ps.ps_faults) script in
+       let rec take k l = if k = 0 then [] else match l with [] -> [] | x :: r -> x :: take (k - 1) r in
+       let earlier_timeouts () =
+         let rec go pre = function
+           | [] -> false
+           | ps :: rest ->
+             let nf = List.length ps.ps_faults in
+             let here = List.exists (fun i ->
+                 accepts (List.rev_append pre ({ ps with ps_faults = take i ps.ps_faults @ [FTimeout] } :: rest)))
+                 (List.init (nf + 1) (fun i -> i)) in
+             here || (if List.mem FTimeout ps.ps_faults then false else go (ps :: pre) rest) in
+         go [] script in
+       let acc = accepts script in
+       if known then begin
+         (* inside class O1 the acceptor has no soundness theorem: the property predicate itself
+            decides (an early drop may end before the point where model and property part) *)
+         if prop && acc then "ok"
+         else if prop then "diff class-O1-script-but-error-surfaced model=" ^ model_string m script
+         else if acc then "viol class=ignore-write-error-silent-end spec=" ^ show_expected exp_strict
+         else "viol spec=" ^ show_expected exp_strict
+       end
+       else if acc then "ok"
+       else if (not as_drop) && has_t && ends_in_timeout && earlier_timeouts () then "ok early-timeout"
+       else if not prop then "viol spec=" ^ show_expected exp_strict
+       else "diff model=" ^ model_string m script
+     | _ -> "error bad-observation")
   | _ -> "error unknown-case"
 
 let () = run_lines verdict
